@@ -59,6 +59,7 @@ Definition item_cloc (it : item) : option loc :=
   match it with IArr l | IStruct l | IMap l => Some l | _ => None end.
 
 Definition zlen {A} (l : list A) : Z := Z.of_nat (length l).
+Arguments zlen : simpl never.
 
 (* ---------- types (stackitem.Type) ---------- *)
 Definition item_type (it : item) : Z :=
@@ -259,11 +260,13 @@ Fixpoint clone_struct (fuel : nat) (h : heap) (l : loc) (limit : Z) : option (he
       end
   end.
 
+Definition clone_fuel : nat := Z.to_nat MaxClonableNumOfItems + 1.
+
 (* vm.cloneIfStruct: (heap, item to store, was it a struct) *)
 Definition clone_if_struct (h : heap) (it : item) : option (heap * item * bool) :=
   match it with
   | IStruct l =>
-      match clone_struct (Z.to_nat MaxClonableNumOfItems + 1) h l (MaxClonableNumOfItems - 1) with
+      match clone_struct clone_fuel h l (MaxClonableNumOfItems - 1) with
       | Some (h', l', _) => Some (h', IStruct l', true)
       | None => None
       end
